@@ -594,6 +594,7 @@ def do_lineprefix(s, prefix):
         Add block auto-indent feature
     """
     newline = u'\n'
+    s = soft_unicode(s)  # the value of an expression need not be a string (e.g. {{* 5 }})
 
     if isinstance(s, Markup):
         prefix = Markup(prefix)
